@@ -459,26 +459,26 @@ theorem ordered_mkChain (e : Entry) (ks : Key) : (mkChain e ks).Ordered cmp := b
     | nil => simp [mkChain, Node.Ordered, Node.heads]
     | cons y ys => simp only [mkChain, Node.Ordered, Node.heads]; simp [ih]
 
-theorem ordered_insPure (e : Entry) (t : Node) (ks : Key) (hks : ks ≠ []) (ho : t.Ordered cmp) :
+theorem ordered_insPure (e : Entry) (t : Node) (ks : Key) (ho : t.Ordered cmp) :
     (t.insPure cmp e ks).Ordered cmp := by
   induction t generalizing ks with
   | nil => simp only [Node.insPure]; exact ordered_mkChain e ks
   | node c d l m r ihl ihm ihr =>
     obtain ⟨hl, hr, ol, om, or⟩ := ho
     cases ks with
-    | nil => exact absurd rfl hks
+    | nil => simp only [Node.insPure]; exact ⟨hl, hr, ol, om, or⟩
     | cons x xs =>
       simp only [Node.insPure]
       cases hx : cmp x c <;> simp only []
-      · refine ⟨?_, hr, ihl (x :: xs) (by simp) ol, om, or⟩
+      · refine ⟨?_, hr, ihl (x :: xs) ol, om, or⟩
         intro a ha
         rcases heads_insPure e l x xs a ha with h | h
         · rw [h]; exact hx
         · exact hl a h
       · cases xs with
         | nil => exact ⟨hl, hr, ol, om, or⟩
-        | cons y ys => exact ⟨hl, hr, ol, ihm (y :: ys) (by simp) om, or⟩
-      · refine ⟨hl, ?_, ol, om, ihr (x :: xs) (by simp) or⟩
+        | cons y ys => exact ⟨hl, hr, ol, ihm (y :: ys) om, or⟩
+      · refine ⟨hl, ?_, ol, om, ihr (x :: xs) or⟩
         intro a ha
         rcases heads_insPure e r x xs a ha with h | h
         · rw [h]; exact hx
@@ -519,7 +519,7 @@ theorem pruned_insPure (e : Entry) (t : Node) (ks : Key) (hp : t.Pruned) : (t.in
 theorem keysOk_insPure (hc : CmpLaw cmp) (key : Key) (v : Nat) (t : Node) (hk : key ≠ [])
     (ho : t.Ordered cmp) (hko : t.KeysOk) : (t.insPure cmp (key, v) key).KeysOk := by
   intro x hx
-  have ho' := ordered_insPure (cmp := cmp) (key, v) t key hk ho
+  have ho' := ordered_insPure (cmp := cmp) (key, v) t key ho
   have h := lookup_of_mem_entries hc _ ho' x hx
   rw [lookup_insPure hc _ _ _ _ hk (entries_key_ne_nil _ x hx)] at h
   split at h
@@ -1116,7 +1116,7 @@ theorem Table.add_spec (hc : CmpLaw cmp) (t : Table) (key : Key) (v : Nat) (mem 
   simp only [Table.add]
   refine ⟨fun h => ?_, fun h => ?_, q.2.2.1, q.2.2.2⟩
   · obtain ⟨q1, q2, q3⟩ := q.1 h
-    have ho' := ordered_insPure (cmp := cmp) (key, v) t.root key hk ho
+    have ho' := ordered_insPure (cmp := cmp) (key, v) t.root key ho
     have hko' := keysOk_insPure hc key v t.root hk ho hko
     refine ⟨⟨⟨?_, ?_, ?_⟩, ?_⟩, ?_, q2⟩
     · simp only; rw [q3, hs]; split <;> rfl
@@ -1223,4 +1223,117 @@ theorem Table.destroy_spec (t : Table) (mem : Mem) (hs : t.size = t.root.marked)
   have f := free_spec (t.removeAll mem).2 (by omega)
   simp only [Table.destroy]
   exact ⟨by rw [f.1, this.2.1], by rw [f.2.1, this.2.2.1]⟩
+
+/-! ### the structural invariant survives every call, the empty key included (X5 is a functional
+defect, not a memory-safety one) -/
+
+theorem Table.add_inv_any_key (t : Table) (key : Key) (v : Nat) (mem : Mem) (hi : t.Inv cmp) :
+    (t.add cmp key v mem).2.1.Inv cmp ∧ (t.add cmp key v mem).2.2.fault = mem.fault ∧
+    (t.add cmp key v mem).2.2.live + t.root.owned = mem.live + (t.add cmp key v mem).2.1.root.owned := by
+  obtain ⟨hs, hp, ho⟩ := hi
+  have q := ins_spec (cmp := cmp) key v t.root key mem
+  unfold InsSpec at q
+  simp only [Table.add]
+  by_cases h : (t.root.ins cmp key v key mem).st = .ok
+  · obtain ⟨q1, q2, q3⟩ := q.1 h
+    refine ⟨⟨?_, ?_, ?_⟩, q.2.2.1, q2⟩
+    · simp only; rw [q3, hs]; split <;> rfl
+    · simp only; rw [q1]; exact pruned_insPure _ _ _ hp
+    · simp only; rw [q1]; exact ordered_insPure _ _ _ ho
+  · obtain ⟨q1, q2, q3, q4⟩ := q.2.1 h
+    refine ⟨?_, q.2.2.1, by rw [q2, q4]⟩
+    simp only [q2, q3]; exact ⟨hs, hp, ho⟩
+
+theorem Table.remove_inv_any_key (t : Table) (key : Key) (mem : Mem) (hi : t.Inv cmp) (hl : t.Owns mem) :
+    (t.remove cmp key mem).2.2.1.Inv cmp ∧ (t.remove cmp key mem).2.2.2.fault = mem.fault ∧
+    (t.remove cmp key mem).2.2.2.live + t.root.owned = mem.live + (t.remove cmp key mem).2.2.1.root.owned := by
+  obtain ⟨hs, hp, ho⟩ := hi
+  simp only [Table.remove]
+  cases hf : t.root.findPath cmp key with
+  | none => exact ⟨⟨hs, hp, ho⟩, rfl, rfl⟩
+  | some p =>
+    simp only []
+    cases hd : (t.root.sub p).data? with
+    | none => exact ⟨⟨hs, hp, ho⟩, rfl, rfl⟩
+    | some e =>
+      obtain ⟨q1, q2, q3, q4, q5, q6⟩ := remAt_spec t.root p mem e hd (by unfold Table.Owns at hl; omega)
+      refine ⟨⟨?_, pruned_remAt _ _ _ hp, ordered_remAt _ _ _ ho⟩, q4, q3⟩
+      simp only; rw [hs]; split <;> omega
+
+/-! ### refusals are never swallowed -/
+
+theorem alloc_refused (m : Mem) :
+    (m.alloc.1 = true → m.alloc.2.nrefused = m.nrefused) ∧
+    (m.alloc.1 = false → m.alloc.2.nrefused = m.nrefused + 1) := by
+  unfold Mem.alloc; split <;> simp
+
+theorem free_refused (m : Mem) : m.free.nrefused = m.nrefused := by
+  unfold Mem.free; split <;> rfl
+
+theorem freeN_refused (n : Nat) (m : Mem) : (freeN n m).nrefused = m.nrefused := by
+  induction n generalizing m with
+  | zero => rfl
+  | succ n ih => simp only [freeN]; rw [ih, free_refused]
+
+theorem allocChain_refused (todo made : Nat) (m : Mem) :
+    ((allocChain todo made m).1 = true → (allocChain todo made m).2.nrefused = m.nrefused) ∧
+    ((allocChain todo made m).1 = false → (allocChain todo made m).2.nrefused = m.nrefused + 1) := by
+  induction todo generalizing made m with
+  | zero => simp [allocChain]
+  | succ n ih =>
+    simp only [allocChain]
+    have a := alloc_refused m
+    rcases Bool.eq_false_or_eq_true m.alloc.1 with ha | ha
+    · have := ih (made + 1) m.alloc.2
+      simp only [ha, Bool.not_true, Bool.false_eq_true, if_false]
+      rw [← a.1 ha]; exact this
+    · simp only [ha, Bool.not_false, if_true]
+      refine ⟨by simp, fun _ => ?_⟩
+      rw [freeN_refused, a.2 ha]
+
+/-- `add` reports `CC_ERR_ALLOC` exactly when one of its allocator requests was refused -/
+def RefusedSpec (mem : Mem) (q : InsRes) : Prop :=
+  (q.st = .ok → q.mem.nrefused = mem.nrefused) ∧ (q.st ≠ .ok → q.mem.nrefused = mem.nrefused + 1)
+
+theorem setData_refused (key : Key) (v c : Nat) (d : Option Entry) (l m r : Node) (mem : Mem) :
+    RefusedSpec mem (setData key v c d l m r mem) := by
+  unfold RefusedSpec
+  cases d with
+  | some e0 => simp [setData]
+  | none =>
+    simp only [setData]
+    have a := alloc_refused mem
+    rcases Bool.eq_false_or_eq_true mem.alloc.1 with ha | ha
+    · simp [ha, a.1 ha]
+    · simp [ha, a.2 ha]
+
+theorem ins_refused (key : Key) (v : Nat) (t : Node) (ks : Key) (mem : Mem) :
+    RefusedSpec mem (t.ins cmp key v ks mem) := by
+  induction t generalizing ks with
+  | nil =>
+    unfold RefusedSpec
+    simp only [Node.ins]
+    have a := allocChain_refused (chainLen ks) 0 mem
+    rcases Bool.eq_false_or_eq_true (allocChain (chainLen ks) 0 mem).1 with ha | ha
+    · have b := alloc_refused (allocChain (chainLen ks) 0 mem).2
+      rcases Bool.eq_false_or_eq_true (allocChain (chainLen ks) 0 mem).2.alloc.1 with hb | hb
+      · simp [ha, hb, b.1 hb, a.1 ha]
+      · simp [ha, hb, freeN_refused, b.2 hb, a.1 ha]
+    · simp [ha, a.2 ha]
+  | node c d l m r ihl ihm ihr =>
+    cases ks with
+    | nil => simp only [Node.ins]; exact setData_refused key v c d l m r mem
+    | cons x xs =>
+      simp only [Node.ins]
+      cases h : cmp x c <;> simp only []
+      · exact ihl (x :: xs)
+      · cases xs with
+        | nil => exact setData_refused key v c d l m r mem
+        | cons y ys => exact ihm (y :: ys)
+      · exact ihr (x :: xs)
+
+theorem Table.add_refused (t : Table) (key : Key) (v : Nat) (mem : Mem) :
+    ((t.add cmp key v mem).1 = .ok → (t.add cmp key v mem).2.2.nrefused = mem.nrefused) ∧
+    ((t.add cmp key v mem).1 ≠ .ok → (t.add cmp key v mem).2.2.nrefused = mem.nrefused + 1) :=
+  ins_refused key v t.root key mem
 end CC.TST
